@@ -48,9 +48,10 @@ RULE = ("cases drawn from one PRNG (VERIF_SEED). view: a random tree (depth <= 3
         "of a literal attribute value (attr=\"lit\", {\"lit\"}, (\"lit\"), const, concat!, String expression; title / "
         "class / style / id / data-*: 15 forms) in 7 positions (root, nested static, next to a dynamic child / "
         "attribute, on input and textarea), all 105 combinations; "
-        "template: fourteen view! templates (text child, attribute, class, style, href, input value, Option child, "
-        "list item, textarea, class: toggle, custom element, title, closure child, scope class `class = expr,`) with the generated string in the "
-        "dynamic slot. Strings come from an adversarial alphabet (< > & \" ' / = ` NUL, <!--, -->, ]]>, </script, "
+        "template: twenty view! templates (text child, attribute, class, style, href, input value, Option child, "
+        "list item, textarea, class: toggle, custom element, title, closure child, scope class `class = expr,`, style:prop, "
+        "style / class (name, value) tuples and class arrays, attr: on a component, spread {..attrs}, fragment root) "
+        "with the generated string in the dynamic slot. Strings come from an adversarial alphabet (< > & \" ' / = ` NUL, <!--, -->, ]]>, </script, "
         "</title, </textarea, </style, <script, <body, </head>, <!--HEAD-->, character-reference look-alikes such as "
         "&lt; &amp; &#60; &notit;, CR/LF, Unicode whitespace, astral characters) plus random scalar values. "
         "Non-trivial = some string of the "
@@ -392,7 +393,8 @@ def gen_meta_node(rng, only=None):
     if kind == 8:
         return [6, 8, rng.randrange(len(LIT_META)), [], 0]
     if kind == 0:
-        return [6, 0, 0, [b(text(rng, 8))], rng.randrange(6)]
+        var = rng.choice([0, 0, 0, 1, 1, 2])
+        return [6, 0, var, [b(text(rng, 8))] + ([b(text(rng, 3))] if var else []), rng.randrange(6)]
     var = rng.choice([k[1] for k in META_ATTRS if k[0] == kind])
     n = len(META_ATTRS[(kind, var)][1]) + (1 if (kind, var) in META_CHILD else 0)
     strs = [b(text(rng)) for _ in range(rng.randint(1, max(1, n)))]
@@ -461,7 +463,7 @@ def gen_meta_doc(rng):
 
 
 N_STATIC = 15
-N_TEMPLATES = 14
+N_TEMPLATES = 20
 
 
 def gen_keyed(rng):
@@ -473,7 +475,7 @@ def gen_keyed(rng):
 
 
 def gen_island(rng):
-    return [11, rng.randrange(3), b(text(rng, 8)), gen_view(rng, 1, deep_tags=META_BODY_TAGS)]
+    return [11, rng.randrange(6), b(text(rng, 8)), gen_view(rng, 1, deep_tags=META_BODY_TAGS)]
 
 
 def island_problem(case, got):
@@ -486,6 +488,10 @@ def island_problem(case, got):
         return "expected <leptos-island> and <p>, parsed " + H.serialize(got).strip()[:200]
     isl = got[0]
     at = dict(isl[2])
+    if case[1] >= 3:
+        if isl[2] != [("data-component", "Counter")]:
+            return "island attributes differ: parsed %r" % (isl[2],)
+        return first_diff(canon(want_kids) + [("el", "p", [], [("text", "after")])], canon(isl[3]) + got[1:])
     if sorted(at) != ["data-component", "data-props"] or len(isl[2]) != 2 or at["data-component"] != "Counter":
         return "island attributes differ: parsed %r" % (isl[2],)
     try:
@@ -891,6 +897,21 @@ def template_expect(k, s):
         return [("el", "title", [], [T(t)])]
     if k == 12:
         return [("el", "p", [], [T(tb)])]
+    if k == 14:
+        return [("el", "span", [("style", norm_attr(rust_trim("color:" + s + ";")))], [T("x")])]
+    if k == 15:
+        return [("el", "span", [("style", norm_attr(rust_trim("background:" + s + ";")))], [T("x")])]
+    if k == 16:
+        # the order in which the macro applies class attributes is not this property's concern: class tokens
+        toks = sorted(norm_attr(s).split() + ["plain", 't"<x', "a&b", 'c"d'])
+        return [("el", "div", [("class", " ".join(toks))], [])]
+    if k == 17:
+        return [("el", "section", [("lang", "en"), ("title", ta), ("data-w", ta), ("class", norm_attr(rust_trim(" " + s)))],
+                 [T("x")])]
+    if k == 18:
+        return [("el", "div", [("title", ta), ("data-k", ta)], [T("x")])]
+    if k == 19:
+        return [T("a<b"), T(tb), ("el", "p", [], [T("x")])]
     # k == 13: scope class; the top-level element goes through the builder (trimmed), the nested
     # ones are inlined by the macro (scope class, then the element's own class)
     return [("el", "div", [("class", norm_attr(rust_trim(" " + s)))],
@@ -1076,9 +1097,12 @@ def oracle_metadoc(case, impl):
     if not hk or hk[0] != ("el", "meta", [("charset", "utf-8")], []):
         return "head does not start with the shell's <meta charset>: " + H.serialize(hk[:1])[:200]
     hk = hk[1:]
-    titles = [(late, e[1]) for late, e, m in exp if e[0] == "title"]
+    # the text of the last <Title text/> registered in time, through the last formatter registered in time
+    titles = [(late, e[1]) for late, e, m in exp if e[0] == "title" and not (m[1] == 0 and m[2] == 2)]
+    formats = [""] + [s_of(m[3][1 % len(m[3])]) for late, e, m in exp if m[1] == 0 and m[2] in (1, 2)]
     sync_titles = [t for late, t in titles if not late]
     allowed = set(t for late, t in titles if late) | set(sync_titles[-1:])
+    allowed = set(f + t for t in allowed for f in formats)
     if hk and hk[0][0] == "el" and hk[0][1] == "title":
         t = hk[0]
         hk = hk[1:]
@@ -1181,6 +1205,9 @@ def oracle(item, impl):
         if want is None:
             return None
         want = canon(want)
+        if case[1] == 16:
+            got = [("el", n[1], [(a, " ".join(sorted(v.split())) if a == "class" else v) for a, v in n[2]], n[3])
+                   if n[0] == "el" else n for n in got]
     elif op == 9:
         want = canon(keyed_expect(case[3]))
     elif op == 11:
@@ -1237,7 +1264,7 @@ def valid_case(item):
             return len(case) == 4 and case[1] in (0, 1, 2) and case[2] in (0, 1, 2)
         if op == 11:
             bytes(case[2]).decode("utf-8")
-            return (len(case) == 4 and case[1] in (0, 1, 2) and valid_view(case[3]) and not has_suspend(case[3])
+            return (len(case) == 4 and case[1] in range(6) and valid_view(case[3]) and not has_suspend(case[3])
                     and not meta_nodes(case[3]))
         if op == 10:
             bytes(case[3]).decode("utf-8")
@@ -1330,7 +1357,7 @@ def valid_view(v, in_text_only=False):
             bytes(x).decode("utf-8")
         if v[1] == 8:
             return isinstance(v[2], int) and 0 <= v[2] < len(LIT_META) and v[3] == []
-        return (v[1] == 0 and v[2] == 0 or (v[1], v[2]) in META_ATTRS) and len(v[3]) >= 1
+        return (v[1] == 0 and v[2] in (0, 1, 2) or (v[1], v[2]) in META_ATTRS) and len(v[3]) >= 1
     if k != 2 or len(v) != 4 or not (0 <= v[1] < len(TAGS)):
         return False
     names = []
@@ -1468,7 +1495,8 @@ def show_view(v):
         if v[1] == 8:
             return "<literal #%d %s>" % (v[2], H.serialize(LIT_META[v[2]]).strip() if LIT_META[v[2]][0] == "el" else LIT_META[v[2]])
         if v[1] == 0:
-            return "<Title text=%r rep %d/>" % (s_of(v[3][0]), v[4])
+            return "<Title%s%s rep %d/>" % ("" if v[2] == 2 else " text=%r" % s_of(v[3][0]),
+                                           " formatter=|t| %r+t" % s_of(v[3][1 % len(v[3])]) if v[2] else "", v[4])
         name, names = META_ATTRS[(v[1], v[2])]
         strs = [s_of(x) for x in v[3]]
         props = " ".join("%s=%r" % (n, strs[i % len(strs)]) for i, n in enumerate(names))
@@ -1508,7 +1536,8 @@ def describe(it):
             return "view! template #%d with %r" % (case[1], s_of(case[2]))
         if case[0] == 11:
             return "%s of an island with the props {label: %r} and the children %s" % (
-                ["to_html", "in-order stream", "out-of-order stream"][case[1]], s_of(case[2]), show_view(case[3]))
+                ["to_html", "in-order stream", "out-of-order stream"][case[1] % 3],
+                s_of(case[2]) if case[1] < 3 else "(none; the span shows %r)" % s_of(case[2]), show_view(case[3]))
         if case[0] == 10:
             return "view! { %s } with A = %s%s" % (ATTR_POSITIONS[case[2]], ATTR_FORMS[case[1]][0].replace("A0", _A0).replace("A1", _A1),
                                                   (", s = %r" % s_of(case[3])) if case[2] in (3, 6) else "")
